@@ -158,7 +158,9 @@ class UnitsSerializer(Serializer):
         try:
             return_value = []
             for subvalue in data:
-                return_value.append(f"!units[{str(subvalue)}]")
+                # an array of any depth: one string per element (the
+                # str() of a row would read as a product to pint)
+                return_value.append(self.serialize(subvalue))
             return return_value
         except TypeError:
             return f"!units[{str(data)}]"
@@ -248,7 +250,9 @@ class QuantitySerializer(Serializer):
         try:
             return_value = []
             for subvalue in data:
-                return_value.append(f"!units[{str(subvalue)}]")
+                # an array of any depth: one string per element (the
+                # str() of a row would read as a product to pint)
+                return_value.append(self.serialize(subvalue))
             return return_value
         except TypeError:
             return f"!units[{str(data)}]"
